@@ -23,7 +23,8 @@ pub enum Req {
     Vy, // valid solve, instance y
     M,  // malformed JSON
     W,  // wrong content type
-    S,  // well-formed but semantically invalid (dangling reference)
+    S,  // well-formed but semantically invalid (dangling reference): the handler panics in the loader
+    S2, // loads fine but makes the solver itself panic (absurd cost coefficient: overflow guard in the flow model)
 }
 
 impl Req {
@@ -35,14 +36,15 @@ impl Req {
             Req::M => "malformed-json",
             Req::W => "wrong-content-type",
             Req::S => "semantically-invalid",
+            Req::S2 => "solver-panics",
         }
     }
     fn from_name(s: &str) -> Option<Req> {
-        [Req::H, Req::Vx, Req::Vy, Req::M, Req::W, Req::S].into_iter().find(|r| r.name() == s)
+        ALPHABET.into_iter().find(|r| r.name() == s)
     }
 }
 
-const ALPHABET: [Req; 6] = [Req::H, Req::Vx, Req::Vy, Req::M, Req::W, Req::S];
+const ALPHABET: [Req; 7] = [Req::H, Req::Vx, Req::Vy, Req::M, Req::W, Req::S, Req::S2];
 
 /// prefix every identifier so that two instances share no id
 fn prefix_ids(v: &Value, p: &str, key: Option<&str>) -> Value {
@@ -61,6 +63,7 @@ pub struct Bodies {
     pub x: Value,
     pub y: Value,
     pub s: Value,
+    pub s2: Value,
 }
 
 pub fn bodies() -> Bodies {
@@ -69,7 +72,10 @@ pub fn bodies() -> Bodies {
     let y = prefix_ids(&Inst::from_code("0,0,1,0,2,1,1,1,0,0,0,0;0.0.0.1,0.0.3.2,0.1.2.1").unwrap().to_json(), "y_", None);
     let mut s = x.clone();
     s["departures"][0]["route"] = json!("x_no_such_route");
-    Bodies { x, y, s }
+    // every reference resolves, but a cost coefficient of 10^15 trips the flow model's overflow guard
+    let mut s2 = y.clone();
+    s2["parameters"]["costs"]["serviceTrip"] = json!(1_000_000_000_000_000u64);
+    Bodies { x, y, s, s2 }
 }
 
 pub struct Server {
@@ -258,6 +264,10 @@ fn send(port: u16, b: &Bodies, r: Req, gate: Option<&str>) -> (Result<Resp, Stri
             let body = with_gate(&b.s);
             (request(port, "POST", "/solve", Some("application/json"), Some(&body.to_string()), t), None)
         }
+        Req::S2 => {
+            let body = with_gate(&b.s2);
+            (request(port, "POST", "/solve", Some("application/json"), Some(&body.to_string()), t), None)
+        }
     }
 }
 
@@ -273,10 +283,10 @@ fn judge(r: Req, resp: &Result<Resp, String>, input: &Option<Value>) -> Vec<Stri
             Ok(x) if (400..500).contains(&x.status) => vec![],
             other => vec![format!("{} request must get a 4xx answer, got {:?}", r.name(), other.as_ref().map(|x| x.status))],
         },
-        Req::S => match resp {
+        Req::S | Req::S2 => match resp {
             Ok(x) if x.status >= 400 => vec![],
             Err(_) => vec![], // closed connection
-            Ok(x) => vec![format!("semantically invalid request answered with status {}", x.status)],
+            Ok(x) => vec![format!("{} request answered with status {}", r.name(), x.status)],
         },
     }
 }
@@ -327,7 +337,7 @@ pub enum Ev {
 
 /// all orders of enter_i / exit_i consistent with program order; a panicking request has no exit
 fn interleavings(reqs: &[Req]) -> Vec<Vec<Ev>> {
-    let per: Vec<Vec<Ev>> = reqs.iter().enumerate().map(|(i, r)| if *r == Req::S { vec![Ev::Enter(i)] } else { vec![Ev::Enter(i), Ev::Exit(i)] }).collect();
+    let per: Vec<Vec<Ev>> = reqs.iter().enumerate().map(|(i, r)| if matches!(r, Req::S | Req::S2) { vec![Ev::Enter(i)] } else { vec![Ev::Enter(i), Ev::Exit(i)] }).collect();
     let mut out = vec![];
     fn rec(per: &Vec<Vec<Ev>>, pos: &mut Vec<usize>, cur: &mut Vec<Ev>, out: &mut Vec<Vec<Ev>>) {
         if pos.iter().zip(per.iter()).all(|(p, v)| *p == v.len()) {
@@ -414,7 +424,7 @@ fn run_interleaving(b: &Bodies, reqs: &[Req], order: &[Ev]) -> Result<Vec<String
 }
 
 fn multisets(n: usize) -> Vec<Vec<Req>> {
-    let kinds = [Req::Vx, Req::Vy, Req::S];
+    let kinds = [Req::Vx, Req::Vy, Req::S, Req::S2];
     let mut out = vec![];
     fn rec(kinds: &[Req], from: usize, left: usize, cur: &mut Vec<Req>, out: &mut Vec<Vec<Req>>) {
         if left == 0 {
@@ -543,7 +553,7 @@ pub fn check(tier: &str) -> i32 {
     report.violation_total = found.len();
     let n_inter = cases.len();
     report.cov("evaluations", json!(seqs.len() + n_inter));
-    report.cov("distinct_nontrivial", json!(seqs.iter().filter(|s| s.iter().any(|r| matches!(r, Req::M | Req::W | Req::S)) && s.iter().any(|r| matches!(r, Req::Vx | Req::Vy))).count() + cases.iter().filter(|(_, o)| o.windows(2).any(|w| matches!((&w[0], &w[1]), (Ev::Enter(a), Ev::Enter(b)) if a != b))).count()));
+    report.cov("distinct_nontrivial", json!(seqs.iter().filter(|s| s.iter().any(|r| matches!(r, Req::M | Req::W | Req::S | Req::S2)) && s.iter().any(|r| matches!(r, Req::Vx | Req::Vy))).count() + cases.iter().filter(|(_, o)| o.windows(2).any(|w| matches!((&w[0], &w[1]), (Ev::Enter(a), Ev::Enter(b)) if a != b))).count()));
     report.cov("fault_sequences", json!(seqs.len()));
     report.cov("fault_sequence_max_length", json!(seq_len));
     report.cov("forced_interleavings", json!(n_inter));
@@ -551,7 +561,7 @@ pub fn check(tier: &str) -> i32 {
     report.cov("distinct_sequence_outcomes", json!(distinct_outcomes.into_inner().unwrap().len()));
     report.cov("sampled_burst_requests", json!(burst_requests));
     report.cov("sampled_burst_failures", json!(burst_failures));
-    report.cov("rule", json!("Alphabet: health, solve(x), solve(y) (instances with disjoint ids, so an answer identifies its request), malformed JSON, wrong content type, semantically invalid body (dangling route reference => panic in the handler). (i) every sequence over the alphabet up to the stated length on a fresh real server, health probe after each element; (ii) for every multiset of solve-type requests {solve(x), solve(y), invalid} up to the stated size, every order of their enter/exit events consistent with program order (a panicking request has no exit), forced through the H3 gates, health probe before each event. Each valid solve must get 200 and an answer passing the C01-C05 oracles for its own instance. Non-trivial = sequences mixing a faulty and a valid request + interleavings with two requests inside the handler at once."));
+    report.cov("rule", json!("Alphabet: health, solve(x), solve(y) (instances with disjoint ids, so an answer identifies its request), malformed JSON, wrong content type, semantically invalid body (dangling route reference => panic in the loader), a body that loads but makes the solver panic (cost coefficient 10^15 => overflow guard of the flow model). (i) every sequence over the alphabet up to the stated length on a fresh real server, health probe after each element; (ii) for every multiset of solve-type requests {solve(x), solve(y), invalid, solver-panics} up to the stated size, every order of their enter/exit events consistent with program order (a panicking request has no exit), forced through the H3 gates, health probe before each event. Each valid solve must get 200 and an answer passing the C01-C05 oracles for its own instance. Non-trivial = sequences mixing a faulty and a valid request + interleavings with two requests inside the handler at once."));
     report.cov("exhaustive", json!(true));
     report.cov("samples", json!([{"sequence": ["semantically-invalid", "solve(x)", "health"]}, {"requests": ["solve(x)", "solve(y)"], "order": ["enter 1", "enter 2", "exit 2", "exit 1"]}]));
     report.assume("interleavings are controlled at handler granularity only (tokio, hyper, rayon and the allocator are not instrumented; loom/shuttle cannot run the tokio I/O runtime); the free-running burst is sampling and carries no exhaustiveness claim");
